@@ -844,7 +844,7 @@ Proof.
     destruct (L.c_needed c <=? L.c_known c + L.found ls); [unfold L.finish; discriminate |].
     destruct (N.of_nat (length (L.pend ls)) =? L.c_alpha c); [discriminate |].
     intro H. exfalso. eapply LP.schedule_not_found. exact H.
-  - unfold L.next_providers. destruct (L.is_done ls); [destruct (L.provs ls); unfold L.finish; discriminate |].
+  - unfold L.next_providers. destruct (L.is_done ls); [destruct (L.c_kprov c ++ L.provs ls); unfold L.finish; discriminate |].
     destruct (N.of_nat (length (L.pend ls)) =? L.c_alpha c); [discriminate |].
     intro H. exfalso. eapply LP.schedule_not_found. exact H.
 Qed.
